@@ -11,6 +11,7 @@ CONSTANTS
   FwdHonoursTerm = TRUE
   InitViaQueue = TRUE
   ClearCache = TRUE
+  DrainKeepsTerm = FALSE
   MonitorOnly = FALSE
 INVARIANT TypeOK
 CONSTRAINT Progress
